@@ -1,5 +1,6 @@
 """C22 — size limits enforced exactly as configured (DESIGN §4/C22)."""
 from rules import lib
+from props import common
 from rules.lib import Prov, show, walk, canon_rel
 
 LEVEL = ("Structural decision procedure of the three size checks: comparison operator and operand provenance "
@@ -114,6 +115,27 @@ def check(ctx):
     prov = Prov(f)
     for fnname, measured, lim, ctor, flag in CHECKS:
         check_size_branch(ctx, f, prov, measured, lim, ctor, flag, lim)
+    # the three limits are judged independently of each other: a comparison must be reached whatever the OTHER comparisons
+    # said (in soft mode a run can exceed several limits at once and must raise every matching flag)
+    ctx.clause("R-GUARD the size comparisons are independent: none is reachable only through one edge of another")
+    cmp_brs = []
+    for fnname, measured, lim, ctor, flag in CHECKS:
+        for br in lib.bool_branches(f, prov):
+            if br.form[0] != "bool" and (lib.mentions_field(br.form[1], lim) or lib.mentions_field(br.form[2], lim)):
+                cmp_brs.append((lim, br))
+                break
+    for la, a in cmp_brs:
+        for lb, b in cmp_brs:
+            if a is b:
+                continue
+            dep = [e for e in (a.true_bb, a.false_bb) if e is not None and lib.edge_dominates(f, a.bb, e, None, b.bb)]
+            ctx.require(not dep, "R-GUARD", "independent:%s-vs-%s" % (lb, la), "the %s comparison is reached whatever the %s comparison said" % (lb, la),
+                        "in check_against_size_limits the %s comparison is reachable only through one edge of the %s comparison (an else-if chain): when both limits are exceeded in soft mode "
+                        "only one flag is raised" % (lb, la))
+    ctx.floor("R-GUARD", "size comparisons in check_against_size_limits", len(cmp_brs), 2)
+    # hard mode: the rejected run hands back the untouched previous data
+    ctx.clause("R-FLOW the Err edge of check_against_size_limits reaches from_uncatchable_error with the untouched raw_prev_data")
+    common.farewell_sites(ctx, F, only=("sizes_limits_check::check_against_size_limits",))
     # returns the triggering struct it filled
     # --- call result size limit (closure inside make_exec_ctx)
     mk = F.fn("preparation::make_exec_ctx")
